@@ -450,6 +450,28 @@ def main(prop, tier, seed, jobs):
             for need in ('argtypes', 'restype'):
                 if need not in d['declared']:
                     agg['viol'].append({'stage': 'py/so', 'case': len(agg['viol']), 'key': 'func:%s|%s-not-declared' % (fn, need), 'msg': 'the package calls %s without declaring %s' % (fn, need)})
+        # 3b. call-site monitor: declarations are per library handle (every module loads its own ctypes.CDLL); a function referenced
+        # through a handle on which it was never declared is called with ctypes' defaults (int return, no conversions)
+        for mn, pm in sorted(disc.get('per_module', {}).items()):
+            if pm.get('used') is None:
+                agg['inconclusive'].append(('py/so', 0, 'module %s: source not parsable' % mn)); continue
+            for fn in pm['used']:
+                agg['obs']['handle_references_checked'] += 1
+                dec = set(pm['declared'].get(fn, []))
+                if {'argtypes', 'restype'} <= dec:
+                    continue
+                cf = cfuncs.get(fn)
+                if cf is None:
+                    g1 = gdb_types(so, [fn]); pf = parse_func(g1.get(fn, ''))
+                    if pf is None:
+                        continue          # not a library function (an attribute of the handle object itself)
+                    pf['cats'] = [cats.cat(p_) for p_ in pf['params']]; pf['retcat'] = cats.cat(pf['ret']); cf = pf
+                missing = sorted({'argtypes', 'restype'} - dec)
+                harmless = (not cf['params'] or cf['params'] == ['void']) and cf['ret'].strip() in ('int', 'void')
+                if 'restype' in missing and cf['ret'].strip() not in ('int', 'void') or ('argtypes' in missing and not harmless and cf['params'] and cf['params'] != ['void']):
+                    agg['viol'].append({'stage': 'py/so', 'case': len(agg['viol']), 'key': 'func:%s|referenced-through-a-handle-without-its-declaration|module=%s' % (fn, mn),
+                                        'msg': 'module %s refers to %s through its own library handle (%s), on which %s was never declared (declared there: %s); C prototype %s (%s): the call uses the ctypes defaults' % (
+                                            mn, fn, ','.join(pm['handles']), ' and '.join(missing), sorted(dec) or 'nothing', cf['ret'], ', '.join(cf['params']))})
         stubsrc = gen_stub(cfuncs)
         for fn in fnames:           # placeholders so that the package still imports on top of the stub; already reported as missing
             if fn not in cfuncs:
